@@ -607,6 +607,17 @@ class Engine:
             if v[0] == "adt":
                 return [(("bool", (v[2] == "Ok") == (m.group(1) == "is_ok")), None)]
             return [(("isvar", v, "Ok" if m.group(1) == "is_ok" else "Err"), None)]
+        if re.search(r"Option::<.*>::(get_or_insert|insert)$", nm) and args and args[0][0] == "ref":
+            loc = args[0][1]
+            cur = self.read_loc(path, loc)
+            kv = self.known_variant(path, cur)
+            newv = ("adt", "std::option::Option", "Some", (args[1],))
+            if nm.endswith("::insert") or kv == "None":
+                return [(("ref", ("loc", loc[1], loc[2] + (("d", "Some"), ("f", "0", 0, "std::option::Option"))), True), None, [(loc, newv)])]
+            if kv == "Some":
+                return [(("ref", ("loc", loc[1], loc[2] + (("d", "Some"), ("f", "0", 0, "std::option::Option"))), True), None)]
+            r_ = ("ref", ("loc", loc[1], loc[2] + (("d", "Some"), ("f", "0", 0, "std::option::Option"))), True)
+            return [(r_, [(("isvar", cur, "None"), True)], [(loc, newv)]), (r_, [(("isvar", cur, "Some"), True)])]
         if re.search(r"Option::<.*>::(unwrap|expect|unwrap_unchecked)$", nm):
             v = self.deref_val(path, args[0])
             kv = self.known_variant(path, v)
@@ -871,8 +882,12 @@ class Engine:
             else:
                 path.events.append(("call", bb, name, tuple(args), outcomes[0][0] if len(outcomes) == 1 else None, t, self.fn.name, snap0))
             outs = []
-            for n, (ret, asm) in enumerate(outcomes):
+            for n, oc in enumerate(outcomes):
+                ret, asm = oc[0], oc[1]
                 np_ = path if n == len(outcomes) - 1 else path.fork()
+                if len(oc) > 2 and oc[2]:
+                    for (wloc, wval) in oc[2]:
+                        self.write_loc(np_, wloc, wval, bb)
                 if asm:
                     for (term, outcome) in asm:
                         self.assume(np_, term, outcome)
